@@ -288,7 +288,7 @@ def random_layout(rng, ty, elems):
     return ("rle", runs)
 
 
-def encode_table(t, layouts=None, be=False, name_order=None, unused=(), with_end=True):
+def encode_table(t, layouts=None, be=False, name_order=None, unused=(), with_end=True, dup_names=()):
     """Reference encoding of a whole file.  layouts[(slice, col, prop or -1)] overrides the
     canonical layout; name_order permutes the column-metadata name list; unused adds names no
     column uses.  Returns the Enc (bytes in .b, field map in .fields)."""
@@ -316,6 +316,8 @@ def encode_table(t, layouts=None, be=False, name_order=None, unused=(), with_end
                 seen.add(nm); names.append((nm, ty, dflt))
     for u in unused:
         names.append(u)
+    for k in dup_names:                      # a foreign writer listing a name twice (same type, same default)
+        if names: names.append(names[k % len(names)])
     if name_order:
         names = [names[i] for i in name_order]
     e.i32(len(names), "namecount")
